@@ -94,5 +94,5 @@ def harnesses(tier, seed):
                     bucket.append(collect("collect_vec", ty, 2, 2, 1, owners, k, src="sched"))
                 bucket.append(collect("collect_vec", ty, 2, 2, 1, None, k, src="counting"))
                 bucket.append(collect("collect_vec", ty, 2, 1, 1, None, k, src="counting"))
-        hs += cap(light, 400, seed) + cap(heavy, 110, seed)
+        hs += cap(light, 250, seed) + cap(heavy, 60, seed)
     return hs
